@@ -2,7 +2,7 @@
 from dataclasses import dataclass
 from typing import List, Optional, Union
 
-from ..exceptions import odxraise, odxrequire
+from ..exceptions import DecodeError, odxraise, odxrequire
 from ..odxtypes import AtomicOdxType, DataType
 from .compuscale import CompuScale
 from .limit import Limit
@@ -59,6 +59,14 @@ class RatFuncSegment:
         for denominator_coeff in reversed(self.denominator_coeffs):
             denominator *= x
             denominator += float(denominator_coeff)
+
+        if not self.denominator_coeffs:
+            # COMPU-DENOMINATOR is optional
+            denominator = 1.0
+
+        if denominator == 0:
+            odxraise(f"Value {value!r} is a pole of the rational function", DecodeError)
+            return 0
 
         result = numerator / denominator
 
